@@ -1,7 +1,8 @@
 (* C02 — Standard combination equals the sparse-grid interpolant. Property theorems only. *)
 From Coq Require Import ZArith List Bool QArith Qcanon Lia.
 From SG Require Import Base.QcUtil Model.CombiScheme Model.StdCombi Proofs.SchemeBasics Proofs.SchemeIE Proofs.SchemeInv
-  Proofs.SchemeStd Proofs.CombiAbstract Proofs.StdGrid Proofs.StdCombiSum Proofs.NodalExact Proofs.StdNodal.
+  Proofs.SchemeStd Proofs.CombiAbstract Proofs.StdGrid Proofs.StdCombiSum Proofs.NodalExact Proofs.StdNodal
+  Proofs.SchemeClosedForm Proofs.StdGeneral.
 Import ListNotations.
 Local Open Scope Z_scope.
 
@@ -40,6 +41,15 @@ Theorem C02_point_coeff_sum_one_closed_form : forall bd a b n lmin lmax x l0 c0,
 Proof. exact std_point_coeff_sum_one. Qed.
 Print Assumptions C02_point_coeff_sum_one_closed_form.
 
+(* ... and GENERAL: for the closed-form scheme of every dimension S n and every 0 <= lmin <= lmax, without the checker
+   (by C01_std_equals_adaptive_init, Proofs/SchemeClosedForm.v) *)
+Theorem C02_point_coeff_sum_one_closed_form_general : forall bd a b n lmin lmax x l0 c0,
+  0 <= lmin <= lmax ->
+  In (l0, c0) (combi_scheme_standard (S n) lmin lmax) -> in_comp bd a b x l0 = true ->
+  coeff_sum bd a b (combi_scheme_standard (S n) lmin lmax) x = 1.
+Proof. exact std_point_coeff_sum_one_general. Qed.
+Print Assumptions C02_point_coeff_sum_one_closed_form_general.
+
 (* the union of the component grids contains every point of the sparse grid of the index set *)
 Theorem C02_union_contains_sparse_grid : forall bd a b s x k,
   Inv s -> 0 <= s_lmin s -> In k (index_set s) -> in_comp bd a b x k = true ->
@@ -66,6 +76,15 @@ Theorem C02_nodal_exact_closed_form : forall bd a b n lmin lmax (f : list Qc -> 
 Proof. exact std_nodal_exact. Qed.
 Print Assumptions C02_nodal_exact_closed_form.
 
+(* ... and GENERAL: closed-form scheme, every dimension S n, every 0 <= lmin <= lmax, without the checker *)
+Theorem C02_nodal_exact_closed_form_general : forall bd a b n lmin lmax (f : list Qc -> Qc) x l0 c0,
+  0 <= lmin <= lmax ->
+  box_ok a b -> length a = S n -> length b = S n -> length x = S n ->
+  In (l0, c0) (combi_scheme_standard (S n) lmin lmax) -> in_comp bd a b x l0 = true ->
+  combi_interp bd a b (combi_scheme_standard (S n) lmin lmax) f x = f x.
+Proof. exact std_nodal_exact_general. Qed.
+Print Assumptions C02_nodal_exact_closed_form_general.
+
 (* the abstract statement both are instances of (any point type, any nested family with the Kronecker property) *)
 Theorem C02_nodal_exact_abstract : forall (X : Type) lmin idx cs (Es : list (Z -> fnl X)) (M : nat),
   (forall l c, In (l, c) cs -> length l = length Es /\ Forall (fun v => lmin <= v <= lmin + Z.of_nat M) l) ->
@@ -83,3 +102,150 @@ Example C02_nonvacuous :
   in_comp true [Q2Qc 0; Q2Qc 0] [Q2Qc 1; Q2Qc 2] [Q2Qc (1 # 4); Q2Qc 1] [2; 1] = true /\
   coeff_sum true [Q2Qc 0; Q2Qc 0] [Q2Qc 1; Q2Qc 2] (combi_scheme_standard 2 1 3) [Q2Qc (1 # 4); Q2Qc 1] = 1.
 Proof. vm_compute. split; [reflexivity|]. split; [|split; reflexivity]. right. right. right. right. left. reflexivity. Qed.
+
+(* ================= EXACTNESS ON THE SPARSE-GRID SPACE (hierarchical hat functions) =================
+   Proofs/HatFacts.v, StdHier1D.v, StdHierTrap.v, StdHierTensor.v, StdHier.v, StdHierGeneral.v.
+   phi = fun_hat a b tau i is the tensor hat function of level vector tau and index vector i on the box [a,b].
+   hier_idx bd lmin tau_d i_d: 0 <= tau_d, 0 <= i_d <= 2^tau_d, interior index when boundary points are off, and i_d odd
+   (hierarchical) unless tau_d <= lmin (all nodal hats of the coarsest level, boundary hats included when bd = true).
+   eff_level lmin tau = max(tau, lmin) componentwise. in_box a b x: a_d <= x_d <= b_d - x is ANY point of the box. *)
+From SG Require Import Proofs.HatFacts Proofs.StdHier1D Proofs.StdHierTrap Proofs.StdHierTensor Proofs.StdHier Proofs.StdHierGeneral.
+
+(* the general identity: combined interpolant of phi = [eff_level in index set] * phi, at every point of the box, for every
+   reachable state of the adaptive scheme (any dimension, any history) *)
+Theorem C02_hier_interp_indicator : forall bd a b s tau i x,
+  Inv s -> 0 <= s_lmin s -> box_ok a b -> length a = s_dim s -> length tau = s_dim s ->
+  Forall2 (hier_idx bd (s_lmin s)) tau i -> in_box a b x ->
+  combi_interp bd a b (combi_scheme_adaptive s) (fun_hat a b tau i) x
+  = if mem (eff_level (s_lmin s) tau) (index_set s) then fun_hat a b tau i x else Q2Qc 0.
+Proof. exact hier_interp_indicator. Qed.
+Print Assumptions C02_hier_interp_indicator.
+
+Theorem C02_hier_interp_exact : forall bd a b s tau i x,
+  Inv s -> 0 <= s_lmin s -> box_ok a b -> length a = s_dim s -> length tau = s_dim s ->
+  Forall2 (hier_idx bd (s_lmin s)) tau i -> In (eff_level (s_lmin s) tau) (index_set s) -> in_box a b x ->
+  combi_interp bd a b (combi_scheme_adaptive s) (fun_hat a b tau i) x = fun_hat a b tau i x.
+Proof. exact hier_interp_exact. Qed.
+Print Assumptions C02_hier_interp_exact.
+
+(* quadrature: combined integral of phi = [eff_level in index set] * exact integral of phi (hat_integral: product of the 1D
+   integrals (b_d-a_d)/2^tau_d, halved for the two boundary hats) *)
+Theorem C02_hier_integral_indicator : forall bd a b s tau i,
+  Inv s -> 0 <= s_lmin s -> box_ok a b -> length a = s_dim s -> length tau = s_dim s ->
+  Forall2 (hier_idx bd (s_lmin s)) tau i ->
+  combi_integral bd a b (combi_scheme_adaptive s) (fun_hat a b tau i)
+  = if mem (eff_level (s_lmin s) tau) (index_set s) then hat_integral a b tau i else Q2Qc 0.
+Proof. exact hier_integral_indicator. Qed.
+Print Assumptions C02_hier_integral_indicator.
+
+Theorem C02_hier_integral_exact : forall bd a b s tau i,
+  Inv s -> 0 <= s_lmin s -> box_ok a b -> length a = s_dim s -> length tau = s_dim s ->
+  Forall2 (hier_idx bd (s_lmin s)) tau i -> In (eff_level (s_lmin s) tau) (index_set s) ->
+  combi_integral bd a b (combi_scheme_adaptive s) (fun_hat a b tau i) = hat_integral a b tau i.
+Proof. exact hier_integral_exact. Qed.
+Print Assumptions C02_hier_integral_exact.
+
+(* interior hats (1 <= i_d <= 2^tau_d - 1): the integral is the product of the mesh widths (b_d - a_d)/2^tau_d *)
+Theorem C02_hier_integral_exact_interior : forall bd a b s tau i,
+  Inv s -> 0 <= s_lmin s -> box_ok a b -> length a = s_dim s -> length tau = s_dim s ->
+  Forall2 (hint_idx (s_lmin s)) tau i -> In (eff_level (s_lmin s) tau) (index_set s) ->
+  combi_integral bd a b (combi_scheme_adaptive s) (fun_hat a b tau i) = hat_volume a b tau.
+Proof. exact hier_integral_exact_interior. Qed.
+Print Assumptions C02_hier_integral_exact_interior.
+
+(* closed-form scheme of StandardCombi, through the verified checker ... *)
+Theorem C02_hier_interp_exact_closed_form : forall bd a b n lmin lmax tau i x,
+  std_perm_check (S n) lmin lmax = true -> box_ok a b -> length a = S n -> length tau = S n ->
+  Forall2 (hier_idx bd lmin) tau i -> In (eff_level lmin tau) (std_index_set (S n) lmin lmax) -> in_box a b x ->
+  combi_interp bd a b (combi_scheme_standard (S n) lmin lmax) (fun_hat a b tau i) x = fun_hat a b tau i x.
+Proof. exact std_hier_interp_exact. Qed.
+Print Assumptions C02_hier_interp_exact_closed_form.
+
+Theorem C02_hier_integral_exact_closed_form : forall bd a b n lmin lmax tau i,
+  std_perm_check (S n) lmin lmax = true -> box_ok a b -> length a = S n -> length tau = S n ->
+  Forall2 (hier_idx bd lmin) tau i -> In (eff_level lmin tau) (std_index_set (S n) lmin lmax) ->
+  combi_integral bd a b (combi_scheme_standard (S n) lmin lmax) (fun_hat a b tau i) = hat_integral a b tau i.
+Proof. exact std_hier_integral_exact. Qed.
+Print Assumptions C02_hier_integral_exact_closed_form.
+
+(* ... and for EVERY dimension and every 0 <= lmin <= lmax without the checker (general permutation theorem of
+   Proofs/SchemeClosedForm.v); the space is explicit: |max(tau,lmin)|_1 <= lmax - lmin + d*lmin. Indicator form: *)
+Theorem C02_hier_interp_indicator_closed_form_general : forall bd a b n lmin lmax tau i x,
+  0 <= lmin <= lmax -> box_ok a b -> length a = S n -> length tau = S n ->
+  Forall2 (hier_idx bd lmin) tau i -> in_box a b x ->
+  combi_interp bd a b (combi_scheme_standard (S n) lmin lmax) (fun_hat a b tau i) x
+  = if std_in_space n lmin lmax tau then fun_hat a b tau i x else Q2Qc 0.
+Proof. exact std_hier_interp_indicator_general. Qed.
+Print Assumptions C02_hier_interp_indicator_closed_form_general.
+
+Theorem C02_hier_interp_exact_closed_form_general : forall bd a b n lmin lmax tau i x,
+  0 <= lmin <= lmax -> box_ok a b -> length a = S n -> length tau = S n ->
+  Forall2 (hier_idx bd lmin) tau i -> sumZ (eff_level lmin tau) <= lmax - lmin + Z.of_nat (S n) * lmin -> in_box a b x ->
+  combi_interp bd a b (combi_scheme_standard (S n) lmin lmax) (fun_hat a b tau i) x = fun_hat a b tau i x.
+Proof. exact std_hier_interp_exact_general. Qed.
+Print Assumptions C02_hier_interp_exact_closed_form_general.
+
+Theorem C02_hier_integral_indicator_closed_form_general : forall bd a b n lmin lmax tau i,
+  0 <= lmin <= lmax -> box_ok a b -> length a = S n -> length tau = S n ->
+  Forall2 (hier_idx bd lmin) tau i ->
+  combi_integral bd a b (combi_scheme_standard (S n) lmin lmax) (fun_hat a b tau i)
+  = if std_in_space n lmin lmax tau then hat_integral a b tau i else Q2Qc 0.
+Proof. exact std_hier_integral_indicator_general. Qed.
+Print Assumptions C02_hier_integral_indicator_closed_form_general.
+
+Theorem C02_hier_integral_exact_closed_form_general : forall bd a b n lmin lmax tau i,
+  0 <= lmin <= lmax -> box_ok a b -> length a = S n -> length tau = S n ->
+  Forall2 (hier_idx bd lmin) tau i -> sumZ (eff_level lmin tau) <= lmax - lmin + Z.of_nat (S n) * lmin ->
+  combi_integral bd a b (combi_scheme_standard (S n) lmin lmax) (fun_hat a b tau i) = hat_integral a b tau i.
+Proof. exact std_hier_integral_exact_general. Qed.
+Print Assumptions C02_hier_integral_exact_closed_form_general.
+
+Theorem C02_hier_integral_exact_interior_closed_form_general : forall bd a b n lmin lmax tau i,
+  0 <= lmin <= lmax -> box_ok a b -> length a = S n -> length tau = S n ->
+  Forall2 (hint_idx lmin) tau i -> sumZ (eff_level lmin tau) <= lmax - lmin + Z.of_nat (S n) * lmin ->
+  combi_integral bd a b (combi_scheme_standard (S n) lmin lmax) (fun_hat a b tau i) = hat_volume a b tau.
+Proof. exact std_hier_integral_exact_interior_general. Qed.
+Print Assumptions C02_hier_integral_exact_interior_closed_form_general.
+
+(* the 1D facts and the abstract inclusion-exclusion step the above are built from *)
+Theorem C02_hat1_interp_fine : forall a b tau i l x, (a < b)%Qc -> 0 <= tau -> tau <= l -> (a <= x)%Qc -> (x <= b)%Qc ->
+  interp1 (grid1_full a b l) (hat1 a b tau i) x = hat1 a b tau i x.
+Proof. exact hat1_interp_fine. Qed.
+Print Assumptions C02_hat1_interp_fine.
+Theorem C02_hat1_trap_fine : forall bd a b tau i l, (a < b)%Qc -> 0 <= tau -> tau <= l -> 1 <= i <= 2 ^ tau - 1 ->
+  dotQ (map (hat1 a b tau i) (grid1 bd a b l)) (weights1 bd a b l) = step a b tau.
+Proof. exact hat1_trap_fine. Qed.
+Print Assumptions C02_hat1_trap_fine.
+Theorem C02_hier_exact_abstract : forall cs tau (V : lv -> Qc) v,
+  (forall l c, In (l, c) cs -> V l = if lv_geb l tau then v else Q2Qc 0) ->
+  sumQ (map (fun kv => (qc_of_Z (snd kv) * V (fst kv))%Qc) cs) = (qc_of_Z (dominating_sum cs tau) * v)%Qc.
+Proof. exact combined_indicator. Qed.
+Print Assumptions C02_hier_exact_abstract.
+
+(* non-vacuity: d=2, lmin=1, lmax=3 on [0,1]x[0,2], no boundary points; the hierarchical hat of level (2,2), index (1,3)
+   satisfies all hypotheses (checker form and general form); the evaluation point (1/3, 9/7) is NOT a grid point of any
+   level; the value there is 8/21 <> 0, the integral is 1/4 * 1/2 = 1/8; and a hat outside the space, level (3,2), is
+   annihilated (indicator false) *)
+Example C02_hier_nonvacuous :
+  std_perm_check 2 1 3 = true /\ 0 <= 1 <= 3 /\
+  box_ok [Q2Qc 0; Q2Qc 0] [Q2Qc 1; Q2Qc 2] /\
+  Forall2 (hier_idx false 1) [2; 2] [1; 3] /\ Forall2 (hint_idx 1) [2; 2] [1; 3] /\
+  In (eff_level 1 [2; 2]) (std_index_set 2 1 3) /\ sumZ (eff_level 1 [2; 2]) <= 3 - 1 + Z.of_nat 2 * 1 /\
+  in_box [Q2Qc 0; Q2Qc 0] [Q2Qc 1; Q2Qc 2] [Q2Qc (1 # 3); Q2Qc (9 # 7)] /\
+  fun_hat [Q2Qc 0; Q2Qc 0] [Q2Qc 1; Q2Qc 2] [2; 2] [1; 3] [Q2Qc (1 # 3); Q2Qc (9 # 7)] = Q2Qc (8 # 21) /\
+  combi_interp false [Q2Qc 0; Q2Qc 0] [Q2Qc 1; Q2Qc 2] (combi_scheme_standard 2 1 3)
+    (fun_hat [Q2Qc 0; Q2Qc 0] [Q2Qc 1; Q2Qc 2] [2; 2] [1; 3]) [Q2Qc (1 # 3); Q2Qc (9 # 7)] = Q2Qc (8 # 21) /\
+  hat_volume [Q2Qc 0; Q2Qc 0] [Q2Qc 1; Q2Qc 2] [2; 2] = Q2Qc (1 # 8) /\
+  std_in_space 1 1 3 [3; 2] = false.
+Proof.
+  split; [vm_compute; reflexivity|]. split; [lia|].
+  split; [repeat constructor|].
+  split; [constructor; [|constructor; [|constructor]];
+          (split; [lia|split; [simpl; lia|split; [intros _; simpl; lia|left; reflexivity]]])|].
+  split; [constructor; [|constructor; [|constructor]]; (split; [lia|split; [simpl; lia|left; reflexivity]])|].
+  split; [apply mem_In; vm_compute; reflexivity|]. split; [vm_compute; discriminate|].
+  split; [simpl; repeat split; vm_compute; discriminate|].
+  split; [apply Qc_is_canon; vm_compute; reflexivity|].
+  split; [apply Qc_is_canon; vm_compute; reflexivity|].
+  split; [apply Qc_is_canon; vm_compute; reflexivity|]. vm_compute. reflexivity.
+Qed.
